@@ -51,8 +51,13 @@ fn expr_attrs(e: &Expr) -> &[Attribute] {
 
 fn is_skipped_macro(m: &Macro) -> bool {
     let n = m.path.segments.last().map(|s| s.ident.to_string()).unwrap_or_default();
-    // assertions have no effect on the (non-panicking) value semantics that is translated
-    n == "debug_assert" || n == "debug_assert_eq" || n == "debug_assert_ne" || n == "assert" || n == "assert_eq" || n == "assert_ne"
+    // debug assertions are not part of release builds (their conditions are overflow checks, property C08's subject)
+    n == "debug_assert" || n == "debug_assert_eq" || n == "debug_assert_ne"
+}
+
+fn is_assert_macro(m: &Macro) -> bool {
+    let n = m.path.segments.last().map(|s| s.ident.to_string()).unwrap_or_default();
+    n == "assert" || n == "assert_eq" || n == "assert_ne"
 }
 
 fn is_panic_macro(m: &Macro) -> bool {
@@ -61,18 +66,61 @@ fn is_panic_macro(m: &Macro) -> bool {
 }
 
 impl<'a> Tr<'a> {
-    /// the end of a path that panics: the current state with a default result
-    fn panic_finish<T: syn::spanned::Spanned>(&mut self, at: &T, env: &Env) -> R<String> {
-        if self.gen.is_some() || !self.loops.is_empty() {
-            return Err(unsupported(at, "`panic!` inside a loop or generator"));
+    /// `assert!(cond, ..)` / `assert_eq!(a, b, ..)` / `assert_ne!(a, b, ..)`: the function is partial, a failing assertion is None
+    fn assert_k<T: syn::spanned::Spanned>(&mut self, mac: &Macro, at: &T, env: &Env, rest: &dyn Fn(&mut Tr<'a>) -> R<String>) -> R<String> {
+        if self.gen.is_some() {
+            return Err(unsupported(at, "`assert!` inside a generator"));
         }
-        let rt = self.ret_ty.clone();
-        if self.fuel {
-            // a fuelled function: no value
+        if !self.partial {
+            self.needs_partial = true;
+            return Err(unsupported(at, "`assert!` (retry as a partial function)"));
+        }
+        let name = mac.path.segments.last().map(|s| s.ident.to_string()).unwrap_or_default();
+        let args: Vec<Expr> = mac
+            .parse_body_with(syn::punctuated::Punctuated::<Expr, Token![,]>::parse_terminated)
+            .map_err(|x| unsupported(at, &format!("assert! arguments: {}", x)))?
+            .into_iter()
+            .collect();
+        let cond: String = if name == "assert" {
+            let c = args.first().ok_or_else(|| unsupported(at, "assert! without a condition"))?;
+            let eff = self.effects_expr(c);
+            if eff.ret || !eff.assigned.is_empty() {
+                return Err(unsupported(at, "assert! condition with effects"));
+            }
+            let v = self.pure(c, env, Some(&Ty::Bool))?;
+            if v.ty != Ty::Bool {
+                return Err(unsupported(at, "assert! condition that is not bool"));
+            }
+            v.s
+        } else {
+            if args.len() < 2 {
+                return Err(unsupported(at, "assert_eq! / assert_ne! with fewer than two arguments"));
+            }
+            let fake = Expr::Binary(ExprBinary { attrs: vec![], left: Box::new(args[0].clone()), op: if name == "assert_eq" { BinOp::Eq(Default::default()) } else { BinOp::Ne(Default::default()) }, right: Box::new(args[1].clone()) });
+            let eff = self.effects_expr(&fake);
+            if eff.ret || !eff.assigned.is_empty() {
+                return Err(unsupported(at, "assert_eq! arguments with effects"));
+            }
+            self.pure(&fake, env, Some(&Ty::Bool))?.s
+        };
+        self.panic_sites.insert(format!("{}!", name));
+        let r = rest(self)?;
+        Ok(format!("if {} then\n{}\nelse None", cond, r))
+    }
+
+    /// the end of a path that panics: the function is partial (result in `option`), this path is None
+    fn panic_finish<T: syn::spanned::Spanned>(&mut self, at: &T, env: &Env) -> R<String> {
+        if self.gen.is_some() {
+            return Err(unsupported(at, "`panic!` inside a generator"));
+        }
+        let _ = env;
+        if self.partial {
+            // a partial function: no value
+            self.panic_sites.insert("panic! / unreachable!".to_string());
             return Ok("None".to_string());
         }
-        let d = self.t.default_of(&rt).ok_or_else(|| unsupported(at, &format!("`panic!` in a function returning {} (no default value for the panicking path)", rt.show())))?;
-        self.finish(Val { s: d, ty: rt }, env)
+        self.needs_partial = true;
+        Err(unsupported(at, "a panicking path (retry as a partial function)"))
     }
 
     pub fn expr_k(&mut self, e: &Expr, env: &Env, hint: Option<&Ty>, k: K) -> R<String> {
@@ -161,6 +209,10 @@ impl<'a> Tr<'a> {
             Expr::Binary(b) if is_compound(&b.op) => self.assign_k(&b.left, Some(&b.op), &b.right, env, e, k),
             Expr::Macro(m) if is_skipped_macro(&m.mac) => k(self, unit()),
             Expr::Macro(m) if is_panic_macro(&m.mac) => self.panic_finish(e, env),
+            Expr::Macro(m) if is_assert_macro(&m.mac) => {
+                let mac = m.mac.clone();
+                self.assert_k(&mac, e, env, &|tr| k(tr, unit()))
+            }
             Expr::MethodCall(m) if m.method == "for_each" && m.args.len() == 1 && matches!(&*m.receiver, Expr::MethodCall(r) if r.method == "iter_mut" && r.args.is_empty()) && matches!(&m.args[0], Expr::Closure(c) if c.inputs.len() == 1) => {
                 // `array_place.iter_mut().for_each(|v| body)`: unrolled; in body `*v` is the i-th component of the place
                 let place: &Expr = match &*m.receiver {
@@ -254,17 +306,22 @@ impl<'a> Tr<'a> {
                 self.generator_k(e, env, k)
             }
             Expr::MethodCall(m) if m.method == "flatten" && m.args.is_empty() && Self::from_fn_closure(&m.receiver).is_some() => self.generator_k(e, env, k),
-            Expr::MethodCall(m) if m.method == "unwrap" && m.args.is_empty() && self.fuel && !matches!(&*m.receiver, Expr::MethodCall(r) if r.method == "try_into") => {
-                // in a fuelled function (result in `option`): `opt.unwrap()` on None leaves the function with None
-                // (None = no value: fuel exhausted, or a panic of `unwrap`)
+            Expr::MethodCall(m) if ((m.method == "unwrap" && m.args.is_empty()) || (m.method == "expect" && m.args.len() == 1)) && self.partial && !matches!(&*m.receiver, Expr::MethodCall(r) if r.method == "try_into") => {
+                // in a partial function (result in `option`): `opt.unwrap()` on None / `res.unwrap()` on Err is the panic: None
+                self.panic_sites.insert("unwrap / expect".to_string());
                 self.expr_k(&m.receiver, env, None, &|tr, v| {
-                    let inner = match &v.ty {
-                        Ty::Option(t) => (**t).clone(),
-                        _ => return Err(unsupported(e, &format!("`unwrap()` on a value of type {} (only Option, in a fuelled function)", v.ty.show()))),
-                    };
                     let x = tr.fresh("u");
-                    let rest = k(tr, Val { s: x.clone(), ty: inner })?;
-                    Ok(format!("match {} with\n| Some {} =>\n{}\n| None => None\nend", v.s, x, rest))
+                    match &v.ty {
+                        Ty::Option(t) => {
+                            let rest = k(tr, Val { s: x.clone(), ty: (**t).clone() })?;
+                            Ok(format!("match {} with\n| Some {} =>\n{}\n| None => None\nend", v.s, x, rest))
+                        }
+                        Ty::Result(t, _) => {
+                            let rest = k(tr, Val { s: x.clone(), ty: (**t).clone() })?;
+                            Ok(format!("match {} with\n| inl {} =>\n{}\n| inr _ => None\nend", v.s, x, rest))
+                        }
+                        _ => Err(unsupported(e, &format!("`unwrap()` on a value of type {} (only Option / Result)", v.ty.show()))),
+                    }
                 })
             }
             Expr::MethodCall(m) if m.method == "inspect" && m.args.len() == 1 && matches!(&m.args[0], Expr::Closure(c) if c.inputs.len() == 1 && matches!(c.inputs[0], Pat::Wild(_))) => {
@@ -442,6 +499,10 @@ impl<'a> Tr<'a> {
                 env2.push(&n, var(cq.clone(), vty));
                 let r = self.stmts_k(rest, &env2, hint, k)?;
                 Ok(let_in(&cq, true, &v.s, &r))
+            }
+            Stmt::Macro(m) if is_assert_macro(&m.mac) => {
+                let mac = m.mac.clone();
+                self.assert_k(&mac, first, env, &|tr| tr.stmts_k(rest, env, hint, k))
             }
             Stmt::Macro(m) if is_panic_macro(&m.mac) => {
                 // `panic!(..)`: this path has no value in Rust; the function ends here with the current state and a default
@@ -872,9 +933,15 @@ impl<'a> Tr<'a> {
             let sv = self.pure(&m.args[0], env, None)?;
             let sv = crate::calls::coerce_array_to_slice(sv, &Ty::Slice(elem.clone()));
             join(&sv.ty, &av.ty).map_err(|mm| unsupported(at, &mm))?;
+            if !self.partial {
+                self.needs_partial = true;
+                return Err(unsupported(at, "`list[a..b].copy_from_slice(..)` (panics out of range: retry as a partial function)"));
+            }
+            self.panic_sites.insert("copy_from_slice on a range".to_string());
             let newv = format!("(Casts.slice_copy {} {} {} {})", av.s, a, b, sv.s);
             let rest = k(self, unit())?;
-            return self.write_place(&root, &path, env, &newv, &rest, at);
+            let w = self.write_place(&root, &path, env, &newv, &rest, at)?;
+            return Ok(format!("if (Casts.slice_copy_ok {} {} {} {}) then\n{}\nelse None", av.s, a, b, sv.s, w));
         }
         let n = match &av.ty {
             Ty::Tuple(ts) => ts.len(),
@@ -1389,13 +1456,31 @@ impl<'a> Tr<'a> {
                 t => return Err(unsupported(at, &format!("assignment to an element of a value of type {} (only slices / long arrays)", t.show()))),
             };
             let us = Ty::int(IntTy::Usize);
+            {
+                // the right side is evaluated first (it can itself panic: `a[i] = a[i] & m`)
+                let eff = self.effects_expr(right);
+                if eff.ret || !eff.assigned.is_empty() {
+                    let left2 = left.clone();
+                    return self.expr_k(right, env, Some(&elem), &|tr, v| {
+                        let (env2, rn, cn) = tr.bind_tmp(env, &v);
+                        let rest = tr.assign_k(&left2, None, &crate::effects::path_expr_of(&rn), &env2, at, k)?;
+                        Ok(crate::effects::let_pat(&[cn], &v.s, &rest))
+                    });
+                }
+            }
             let r = self.pure(right, env, Some(&elem))?;
             join(&r.ty, &elem).map_err(|m| unsupported(at, &m))?;
             let i = self.pure(&ix.index, env, Some(&us))?;
             join(&i.ty, &us).map_err(|m| unsupported(at, &m))?;
+            if !self.partial {
+                self.needs_partial = true;
+                return Err(unsupported(at, "assignment to a slice element (panics out of range: retry as a partial function)"));
+            }
+            self.panic_sites.insert("slice index".to_string());
             let newv = format!("(Casts.slice_set {} {} {})", base.s, i.s, r.s);
             let rest = k(self, unit())?;
-            return self.write_place(&root, &path, env, &newv, &rest, at);
+            let w = self.write_place(&root, &path, env, &newv, &rest, at)?;
+            return Ok(format!("if ((0 <=? {i}) && ({i} <? Z.of_nat (length {b}))) then\n{w}\nelse None", i = i.s, b = base.s, w = w));
         }
         let (root, path) = self.place(left)?;
         let var = env.get(&root).cloned().ok_or_else(|| unsupported(at, &format!("assignment to `{}` which is not a local variable", root)))?;
